@@ -16,6 +16,7 @@ import (
 	"os"
 	"sort"
 	"sync"
+	"sync/atomic"
 	"testing"
 	"testing/synctest"
 	"time"
@@ -107,7 +108,13 @@ func gen(seed int64, tier, mode string) Scenario {
 				sort.Ints(older)
 				live[m] = true
 				sc.Steps = append(sc.Steps, Step{Op: "join", M: m})
-				if len(older) > 0 && !sc.BothT && r.Intn(2) == 0 {
+				if len(older) > 0 && r.Intn(4) == 0 {
+					// the older member leaves (or closes) while its revoke callback for the partitions it hands over is
+					// presumably still running
+					o := older[r.Intn(len(older))]
+					delete(live, o)
+					sc.Steps = append(sc.Steps, Step{Op: "sleep", Ms: 1200 + r.Intn(1500)}, Step{Op: []string{"leave", "close"}[r.Intn(2)], M: o})
+				} else if len(older) > 0 && !sc.BothT && r.Intn(2) == 0 {
 					// the join takes partitions away from an older member; change that member's subscription while its
 					// (slow) revoke callback is presumably running
 					sc.Steps = append(sc.Steps, Step{Op: "sleep", Ms: 1200 + r.Intn(1500)}, Step{Op: "addtopic", M: older[r.Intn(len(older))]})
@@ -264,11 +271,18 @@ func runScenario(t *testing.T, rec *sim.Recorder, sc Scenario) {
 			if sc.BothT {
 				topics = []string{"a", "b"}
 			}
+			var slowCalls atomic.Int32
 			cb := func(kind string) func(context.Context, *kgo.Client, map[string][]int32) {
 				return func(_ context.Context, _ *kgo.Client, parts map[string][]int32) {
 					rec.Ev(kind+"_begin", "m", name, "parts", flat(parts))
 					if kind != "assign" && sc.RevokeMs > 0 && len(parts) > 0 {
-						time.Sleep(time.Duration(sc.RevokeMs) * time.Millisecond) // a slow callback: nobody else may be assigned these meanwhile
+						// a slow callback: nobody else may be assigned these meanwhile. A member's first slow callback takes the full
+						// time, later ones a quarter: a callback that starts later can then finish before one that started earlier
+						d := time.Duration(sc.RevokeMs) * time.Millisecond
+						if slowCalls.Add(1) > 1 {
+							d /= 4
+						}
+						time.Sleep(d)
 					}
 					rec.Ev(kind+"_end", "m", name, "parts", flat(parts))
 				}
